@@ -64,13 +64,14 @@ class Run:
             self.touch(fi)
         self.obligations.append(dict(rule=rule, construct=fi.qual if fi else "", what=what, verdict="discharged", detail=detail[:400]))
 
-    def fail(self, rule: str, fi: Optional[FuncInfo], node: Optional[ast.AST], message: str, expected: str = "", term: str = "", what: str = "", key: str = "") -> None:
+    def fail(self, rule: str, fi: Optional[FuncInfo], node: Optional[ast.AST], message: str, expected: str = "", term: str = "", what: str = "", key: str = "", construct: str = "") -> None:
         """key: a stable identification of the offending instance inside the construct, used instead of the
-        statement text when the rule can name the instance independently of how the statement is written."""
+        statement text when the rule can name the instance independently of how the statement is written.
+        construct: a role name for the construct when the function found by role has a private, renameable name."""
         fi = self._orig(fi)
         if fi is not None:
             self.touch(fi)
-        construct = fi.qual if fi else ""
+        construct = construct or (fi.qual if fi else "")
         stmt = key or (norm_text(node) if node is not None else "")
         where = (fi.loc(node) if fi else "") if node is not None else (fi.loc() if fi else "")
         f = Finding(self.prop, rule, construct, stmt, message, where, expected, term[:600])
@@ -78,11 +79,11 @@ class Run:
             self.findings.append(f)
         self.obligations.append(dict(rule=rule, construct=construct, what=what or message, verdict="VIOLATED", detail=(stmt + " :: " + message)[:400]))
 
-    def check(self, cond: bool, rule: str, fi: Optional[FuncInfo], node: Optional[ast.AST], what: str, message: str = "", expected: str = "", term: str = "", key: str = "") -> bool:
+    def check(self, cond: bool, rule: str, fi: Optional[FuncInfo], node: Optional[ast.AST], what: str, message: str = "", expected: str = "", term: str = "", key: str = "", construct: str = "") -> bool:
         if cond:
             self.ok(rule, fi, what, term)
         else:
-            self.fail(rule, fi, node, message or f"not satisfied: {what}", expected, term, what, key)
+            self.fail(rule, fi, node, message or f"not satisfied: {what}", expected, term, what, key, construct)
         return cond
 
     def floor(self, rule: str, count: int, minimum: int, what: str) -> None:
